@@ -1,6 +1,7 @@
 import Oracle.Common
 import Oracle.Conv
 import MageModel.Gen.Emit
+import MageModel.Gen.List
 import MageModel.Invoke.Mage
 import MageModel.Invoke.Paths
 /-! Oracle ops for the process-level properties (C05, C11, …): `mage.front` and `mage.child`. -/
@@ -87,7 +88,10 @@ def howClass : How → String
 
 /-- what C05 compares: status, class of output, executed calls, and whether a failure message must be on stderr
 ("any" where the property does not say: success, or a target that called os.Exit itself) -/
-def c05J (status : Int) (c : Option ChildOut) (direct : Bool := false) : Json :=
+def c05J (status0 : Int) (c : Option ChildOut) (direct : Bool := false) (stdoutFull : Bool := false) : Json :=
+  -- a listing written to a full device: Gen/List.listingStatus
+  let listedNow := match c with | some { how := .listed, .. } => true | _ => false
+  let status := if stdoutFull && listedNow && status0 = 0 then MageModel.Gen.listingStatus false else status0
   let calls := match c with | some c => c.calls | none => []
   let how := match c with | some c => howClass c.how | none => "other"
   let selfExit := match calls.getLast? with
@@ -116,7 +120,7 @@ def child (j : Json) : R Json := do
   let E ← envOf j
   let argv ← strList (← fld j "argv")
   let c := childMain info conv outcomeOf E argv
-  if (fldStr j "want").toOption == some "c05" then return c05J (osStatus c.status) (some c) true
+  if (fldStr j "want").toOption == some "c05" then return c05J (osStatus c.status) (some c) true ((fldBool j "stdoutFull").toOption.getD false)
   pure (obj (("status", Json.num (JsonNumber.fromInt (osStatus c.status))) :: childJ c))
 
 def front (j : Json) : R Json := do
@@ -131,7 +135,7 @@ def front (j : Json) : R Json := do
       | .usage => some { how := .usage, status := 0 }
       | .misuse (.flag _) => some { how := .usage, status := 2 }   -- package flag prints the usage text too
       | _ => m.child
-    return c05J m.status usage
+    return c05J m.status usage false ((fldBool j "stdoutFull").toOption.getD false)
   let parsedJ : String := match m.parsed with
     | .usage => "usage" | .misuse _ => "misuse"
     | .ok _ .version => "version" | .ok _ .init => "init" | .ok _ .clean => "clean"
